@@ -894,7 +894,7 @@ class PendingFunctionDef(_PendingCompoundStmt[FunctionDef]):
         for tmp_nsp in self.nsp.inner_nsp:
             if (
                 tmp_nsp.symt.get_lineno() == node.lineno
-                and tmp_nsp.symt.get_name() == node.name
+                and tmp_nsp.symt.get_name() == getattr(node, "symtable_name", node.name)
             ):
                 assert isinstance(tmp_nsp, NamespaceFunction)
                 self.internal_nsp = tmp_nsp
@@ -1115,7 +1115,7 @@ class PendingClassDef(_PendingCompoundStmt[ClassDef]):
         for tmp_nsp in self.nsp.inner_nsp:
             if (
                 tmp_nsp.symt.get_lineno() == node.lineno
-                and tmp_nsp.symt.get_name() == node.name
+                and tmp_nsp.symt.get_name() == getattr(node, "symtable_name", node.name)
             ):
                 assert isinstance(tmp_nsp, NamespaceClass)
                 self.internal_nsp = tmp_nsp
@@ -1194,7 +1194,7 @@ class PendingClassDef(_PendingCompoundStmt[ClassDef]):
                 Call(
                     func=metaclass_expr,
                     args=[
-                        Constant(value=self.node.name),
+                        Constant(value=getattr(self.node, "symtable_name", self.node.name)),
                         class_bases,
                         Dict(keys=[], values=[]),
                     ],
